@@ -211,11 +211,11 @@ def main(argv=None):
     # ---- confirm suspected violations from a replay file, in a fresh process
     confirmed, unreproduced, known_hits = [], 0, collections.OrderedDict()
     seen_sigs = collections.Counter()
-    budget = getattr(mod, "MAX_CONFIRM", 12)
     for r in suspects:
         sigs = tuple(sorted({v.get("signature", v.get("kind", "?")) for v in r["violations"]}))
-        if seen_sigs[sigs] >= 2 or len(seen_sigs) > budget:
-            # same signature set already confirmed twice: count, do not replay again
+        if seen_sigs[sigs] >= 2:
+            # this signature set was already replayed twice: count, do not replay again.  Every
+            # distinct signature set is replayed at least once, however many there are.
             seen_sigs[sigs] += 1
             continue
         seen_sigs[sigs] += 1
